@@ -219,13 +219,11 @@ class Interp:
             return range(*args)
         if fn is struct.unpack:
             fmt, buf = args
-            if fmt in ("B", "<B", ">B", "!B") and isinstance(buf, S.SymSeq):
-                if len(buf) != 1:
-                    raise struct.error("unpack requires a buffer of 1 bytes")
-                return (buf[0],)
             if isinstance(buf, S.SymSeq):
-                raise Unsupported(f"struct.unpack({fmt!r}) on symbolic buffer")
+                return S.struct_unpack(fmt, buf)
             return struct.unpack(fmt, buf)
+        if fn is struct.pack and any(isinstance(a, S.SymInt) for a in args[1:]):
+            return S.struct_pack(args[0], *args[1:])
         if fn is uuid.UUID and any(isinstance(v, S.SymSeq) for v in kwargs.values()):
             return SymUUID(bytes_le=kwargs["bytes_le"])
         if fn is object.__setattr__:
@@ -524,12 +522,16 @@ class Interp:
         return out
 
     def e_Dict(self, e, env, globs):
-        d = {}
+        pairs = []
         for k, v in zip(e.keys, e.values):
             if k is None:
-                d.update(self.eval(v, env, globs))
+                m = self.eval(v, env, globs)
+                pairs.extend(m.items())
             else:
-                d[self.eval(k, env, globs)] = self.eval(v, env, globs)
+                pairs.append((self.eval(k, env, globs), self.eval(v, env, globs)))
+        d = V.SymDict() if any(isinstance(k, (V.SymStr, V.SymInt, V.SymSeq)) for k, _ in pairs) else {}
+        for k, v in pairs:
+            d[k] = v
         return d
 
     def e_BinOp(self, e, env, globs):
@@ -645,8 +647,11 @@ class Interp:
         return set(self.e_ListComp(e, env, globs))
 
     def e_DictComp(self, e, env, globs):
-        out, env2 = {}, dict(env)
-        self._comp(e.generators, 0, env2, globs, lambda en: out.__setitem__(self.eval(e.key, en, globs), self.eval(e.value, en, globs)))
+        pairs, env2 = [], dict(env)
+        self._comp(e.generators, 0, env2, globs, lambda en: pairs.append((self.eval(e.key, en, globs), self.eval(e.value, en, globs))))
+        out = V.SymDict() if any(isinstance(k, (V.SymStr, V.SymInt, V.SymSeq)) for k, _ in pairs) else {}
+        for k, v in pairs:
+            out[k] = v
         return out
 
     def e_Call(self, e, env, globs):
@@ -706,6 +711,8 @@ def _isinstance(obj, cls):
         return cls in (uuid.UUID, object)
     if isinstance(obj, V.SymStr):
         return cls in (str, object)
+    if isinstance(obj, V.SymDict):
+        return cls in (dict, object)
     return isinstance(obj, cls)
 
 
